@@ -3,6 +3,12 @@
 TECH = "deterministic simulation with fault injection: "
 
 ENGINES = [
+    {"name": "evsim15", "path": "vsim/engines/evsim15.py", "serves_properties": ["C15"],
+     "kind_free_text": "stub observer -> real DigitalRFEventHandler; differential oracle against the real listing"},
+    {"name": "evsim16", "path": "vsim/engines/evsim16.py", "serves_properties": ["C16"],
+     "kind_free_text": "stub observer with a faulty channel -> real ringbuffer handler; ledger oracle after every step"},
+    {"name": "evsim17", "path": "vsim/engines/evsim17.py", "serves_properties": ["C17"],
+     "kind_free_text": "lock-step node running real recorders and the real mirror handler set; crash states at every mirror FS op"},
     {"name": "mdsim", "path": "vsim/engines/mdsim.py", "serves_properties": ["C12", "C13", "C20"],
      "kind_free_text": "call-granularity simulation of Digital Metadata (+RF) writers and readers on one tree with a "
                        "virtual wall clock and seeded readdir order"},
@@ -115,6 +121,44 @@ CHECKS = {
         "note": "readers use default arguments (accept_empty=True); reader-side I/O faults are not injected (not in the "
                 "quantifier); interleaving is at call granularity as the property states.",
     },
+    "C15": {
+        "engine": "evsim15", "level": "exploration", "design_ref": "DESIGN.md 5/C15",
+        "technique": TECH + "stub observer feeding the real event handler with events derived from a real recorder's FS-op trace plus seeded noise over the path grammar; differential oracle = the real listing",
+        "text": "For seeded handler configurations (16 include-flag combinations incl. defaults, windows at and around file "
+                "times) every event's outcome (which callback, which path) must equal what the real lsdrf says about the "
+                "same path placed inside channel directories, with the window compared exactly; the writer's finalizing "
+                "rename (taken from real lock-step recordings) must arrive as a creation. The bounded grammar is sampled, "
+                "not exhausted - exhaustive enumeration would be the neighbouring technique.",
+        "note": "the filter is a stateless function; the simulation contributes the realistic event source and agreement "
+                "between two real components. Upper-case variants and paths deeper than the format's depth are outside "
+                "the quantifier and not generated. watchdog Observer/inotify are stubbed.",
+    },
+    "C16": {
+        "engine": "evsim16", "level": "exploration", "design_ref": "DESIGN.md 5/C16",
+        "technique": TECH + "real ringbuffer handler behind a faulty event channel (drop, duplicate, reorder, stale), re-scans and batches interleaved; invariants after every step and at every os.remove",
+        "text": "Seeded world scripts over several channels and kinds under all 7 limit combinations; after EVERY delivered "
+                "event / re-scan / batch the handler's tracked set, queue order, record sizes and active_size are compared "
+                "with a ledger of what it was told; every os.remove is judged when issued (tracked data file inside the "
+                "tree, oldest of its channel among what is kept, some limit exceeded on the reported files); after a "
+                "creation every limit holds again.",
+        "note": "single-threaded dispatch (the thread tier of DESIGN 5/C16 is not built); inside a batch the order in "
+                "which the handler learns about files is not observable without hooks, so deletions there are judged "
+                "against an upper bound of what it may believe (never stricter than the property). Files are plain files "
+                "with the format's names.",
+    },
+    "C17": {
+        "engine": "evsim17", "level": "fault_enumeration", "design_ref": "DESIGN.md 5/C17",
+        "technique": TECH + "one lock-step node runs real recorders and the real mirror handler set; event histories with duplication/reordering/late events and seeded handler order; every FS-op boundary of the mirror is a crash state; EXDEV injected on cross-tree rename/link",
+        "text": "At every boundary between two file-system operations of the mirror: each finalized source RF file has an "
+                "intact copy in the source or under the destination (final or tmp. name), and every final-named destination "
+                "file is a complete copy (RF: of the finalized file; metadata/properties: of some version of the source). "
+                "After quiescence: every selected file whose events were delivered is at the same relative path with "
+                "identical (latest) content, no tmp. left, nothing unselected, newest metadata file still in the source "
+                "(move), and a reader on the destination returns what the mirrored files hold.",
+        "note": "complete over the mirror's op boundaries per history, sampled over histories; metadata files are mirrored "
+                "at call granularity of the metadata writer (never mid-append); events are derived from the model of the "
+                "recording, the watchdog observer is stubbed. One known finding (KF-C17-1) is recorded, not repaired.",
+    },
     "C02": {
         "engine": "crashsim", "level": "fault_enumeration", "design_ref": "DESIGN.md 5/C02, 3.2-3.4",
         "technique": TECH + "lock-step recorder, every FS-op boundary as crash state (+torn writes, real SIGKILL cross-check), seeded workloads",
@@ -155,7 +199,7 @@ NOT_APPLICABLE = {
     "C03": "pure integer function of (index, n, d): no state, I/O, schedule, clock or fault for a simulator to vary; "
            "deciding it is input enumeration or proof, i.e. another technique (DESIGN.md section 6)",
 }
-for _p in ( "C14", "C15", "C16", "C17", "C18"):
+for _p in ("C14", "C18"):
     NOT_APPLICABLE.setdefault(_p, _PENDING)
 
 NOTES = ("All checks: bin/check <id> [--tier quick|thorough] [--replay file]; exit 0 held / 1 VIOLATION / 2 harness "
